@@ -401,6 +401,95 @@ namespace {
       else rep.member("statement_trees_refused", form_name[trees[t].form]);
    }
 
+   // ---- (e) complete declarations -----------------------------------------------------------------------------
+   // kind x number of members (0..3) x flavour, each printed through xpr_decl (with and without semicolon) and xpr_stmt
+   // from two initial indentations: indentation restored, stream untouched, decimal probe, no stray control bytes.
+   const char* decl_kind[] = { "var", "field", "bitfield", "alias", "class", "union", "enum", "namespace", "function", "template", "nested-class" };
+   void declaration_sweep()
+   {
+      long long job = 0;
+      for (int kind = 0; kind < 11; ++kind)
+         for (int members = 0; members <= 3; ++members)
+            for (int flavour = 0; flavour < 4; ++flavour) {
+               if (not opt.mine(job++)) continue;
+               ipr::impl::Lexicon lex;
+               ipr::impl::Translation_unit unit{ lex };
+               auto& G = *unit.global_region();
+               auto* located = lex.make_break();
+               located->src_locus = ipr::Source_location{ ipr::Line_number{ 64 }, ipr::Column_number{ 100 }, ipr::File_index{ 8 } };
+               auto name = [&](int i) -> const ipr::Name& { return lex.get_identifier(std::u8string(u8"m") + char8_t('0' + i)); };
+               auto lit = [&](const char8_t* w) -> const ipr::Expr& { return *lex.make_literal(lex.int_type(), w); };
+               const ipr::Type* types[] = { &lex.int_type(), &lex.get_pointer(lex.get_qualified(lex.const_qualifier(), lex.char_type())), &lex.get_reference(lex.double_type()), &lex.get_array(lex.int_type(), lit(u8"4")) };
+               auto fill_udt = [&](auto* u) {
+                  for (int i = 0; i < members; ++i) {
+                     if ((i + flavour) % 3 == 0) u->declare_field(name(i), *types[(i + flavour) % 4]);
+                     else if ((i + flavour) % 3 == 1) u->declare_var(name(i), *types[i % 4])->init = &lit(u8"1");
+                     else { auto* bf = u->declare_bitfield(name(i), lex.int_type()); bf->length = &lit(u8"3"); }
+                  }
+               };
+               auto body_block = [&](const ipr::Region& r) {
+                  auto* b = lex.make_block(r);
+                  for (int i = 0; i < members; ++i) b->add_stmt(i % 2 ? static_cast<const ipr::Stmt&>(*lex.make_return(lit(u8"0"))) : static_cast<const ipr::Stmt&>(*lex.make_expr_stmt(*lex.make_plus(lit(u8"1"), lit(u8"2")))));
+                  if (flavour % 2) { auto* h = b->new_handler(name(7), lex.int_type()); h->body().add_stmt(*lex.make_break()); }
+                  return b;
+               };
+               const ipr::Decl* d = nullptr;
+               auto& nm = lex.get_identifier(u8"subject");
+               switch (kind) {
+               case 0: { auto* v = G.declare_var(nm, *types[flavour]); if (members) v->init = &lit(u8"42"); if (members > 1) v->decl_data.spec = lex.static_specifier() | lex.constexpr_specifier(); d = v; break; }
+               case 1: { auto* v = G.declare_field(nm, *types[flavour]); if (members) v->init = &lit(u8"42"); d = v; break; }
+               case 2: { auto* v = G.declare_bitfield(nm, lex.int_type()); v->length = &lit(u8"5"); if (members) v->init = &lit(u8"1"); d = v; break; }
+               case 3: { d = G.declare_alias(nm, *types[flavour]); break; }
+               case 4: case 10: {
+                  auto* c = lex.make_class(G); c->id = &nm;
+                  if (flavour % 2) { auto* b = lex.make_class(G); b->id = &lex.get_identifier(u8"Base"); c->declare_base(*b); if (flavour == 3) c->declare_base(lex.int_type()); }
+                  fill_udt(c);
+                  if (kind == 10) { auto* inner = lex.make_class(c->body); inner->id = &lex.get_identifier(u8"Inner"); fill_udt(inner); c->declare_type(inner->id.get(), lex.class_type())->init = inner; }
+                  auto* t = G.declare_type(nm, lex.class_type()); t->init = c; d = t; break;
+               }
+               case 5: { auto* u = lex.make_union(G); u->id = &nm; fill_udt(u); auto* t = G.declare_type(nm, lex.union_type()); t->init = u; d = t; break; }
+               case 6: {
+                  auto* e = lex.make_enum(G, flavour % 2 ? ipr::Enum::Kind::Scoped : ipr::Enum::Kind::Legacy); e->id = &nm;
+                  for (int i = 0; i < members; ++i) { auto* en = e->add_member(name(i)); if ((i + flavour) % 2) en->init = &lit(u8"7"); }
+                  auto* t = G.declare_type(nm, lex.enum_type()); t->init = e; d = t; break;
+               }
+               case 7: {
+                  auto* n = lex.make_namespace(G); n->id = &nm; fill_udt(n);
+                  if (flavour > 1) { auto* in = lex.make_namespace(n->body); in->id = &lex.get_identifier(u8"inner"); fill_udt(in); n->declare_type(in->id.get(), lex.namespace_type())->init = in; }
+                  auto* t = G.declare_type(nm, lex.namespace_type()); t->init = n; d = t; break;
+               }
+               case 8: {
+                  ipr::impl::Warehouse<ipr::Type> w; for (int i = 0; i < flavour; ++i) w.push_back(*types[i]);
+                  auto& ft = lex.get_function(lex.get_product(w), lex.int_type());
+                  auto* f = G.declare_fun(nm, ft);
+                  auto* m = lex.make_mapping(G, ipr::Mapping_level{ 0 });
+                  for (int i = 0; i < flavour; ++i) m->param(name(i), *types[i]);
+                  m->typing = &ft; m->body = body_block(m->inputs.region());
+                  f->data.emplace<1>(m); d = f; break;
+               }
+               case 9: {
+                  ipr::impl::Warehouse<ipr::Type> w; w.push_back(lex.typename_type()); if (flavour % 2) w.push_back(lex.int_type());
+                  auto& fa = lex.get_forall(lex.get_product(w), lex.class_type());
+                  auto* t = G.declare_primary_template(nm, fa);
+                  auto* m = lex.make_mapping(G, ipr::Mapping_level{ 0 });
+                  m->param(lex.get_identifier(u8"T"), lex.typename_type()); if (flavour % 2) m->param(lex.get_identifier(u8"N"), lex.int_type());
+                  m->typing = &fa; m->body = types[members];
+                  t->init = m; d = t; break;
+               }
+               }
+               for (int ep : { EP_decl, EP_stmt, EP_expr })
+                  for (int indent : { 0, 6 }) {
+                     Observation o = print_case(lex, ep, *d, nullptr, *located, indent);
+                     rep.count("states");
+                     const std::string nmz = std::string("a complete ") + decl_kind[kind] + " declaration with " + std::to_string(members) + " members (flavour " + std::to_string(flavour) + ", initial indentation " + std::to_string(indent) + ") through " + ep_name[ep];
+                     judge(std::string("declaration:") + decl_kind[kind] + ":" + ep_name[ep], nmz, o, "", ep != EP_expr, kind * 100 + members * 10 + flavour,
+                           vf::JObj{}.str("pass", "C18").str("family", "declaration").raw("ops", vf::jarr(std::vector<long long>{ kind, members, flavour, ep, indent })).done());
+                     if (o.outcome == "completed") rep.count("declarations_printed_to_completion"); else rep.member("declarations_refused", decl_kind[kind]);
+                  }
+            }
+      rep.count("traces");
+   }
+
    void tree_sweep()
    {
       const bool deep = opt.thorough();
@@ -441,6 +530,7 @@ int main(int argc, char** argv)
       }
       else if (text.find("\"literal\"") != std::string::npos) literal_sweep();
       else if (text.find("\"delimiter\"") != std::string::npos) delimiter_sweep();
+      else if (text.find("\"declaration\"") != std::string::npos) declaration_sweep();
       else { std::printf("replay C18: zoo sweep with operand rotation %lld\n", ops.empty() ? 0 : ops[0]); zoo_sweep(ops.empty() ? 0 : int(ops[0])); }
       for (auto& [k, v] : rep.viols) std::printf("violated: %s  (%s)\n", k.c_str(), v.what.c_str());
       return rep.viols.empty() ? 0 : 1;
@@ -449,6 +539,7 @@ int main(int argc, char** argv)
    for (int r = 0; r < rots; ++r) zoo_sweep(r);
    literal_sweep();
    if (opt.shard == 0) delimiter_sweep();
+   declaration_sweep();
    tree_sweep();
    if (opt.shard == 0) {
       rep.info("space", vf::JObj{}.num("factory_rows", (long long) zoo::rows().size()).num("operand_rotations", rots).str("entry_points", "xpr_expr, xpr_stmt, xpr_decl for every expression node; xpr_type for every type node")
